@@ -1,5 +1,6 @@
 import Drivers.Common
 import RioModel.Model.Loop
+import RioModel.Model.LoopAnalysisTable
 open Lean Rio.Loop
 
 /-- a row `[url, method, kind, status, location|null, ext]` of the observed step table -/
@@ -48,6 +49,11 @@ def handle (j : Json) : Except String Json := do
     let method := (← Drv.optStr? p "method").getD "GET"      -- example.method.clone().unwrap_or("GET")
     let rows ← ((← (fromJson? tables[i]! : Except String (Array Json))).toList.mapM parseRow)
     out := out.push (← loopObs rows maxHops url method)
-  return Json.mkObj [("m", Json.mkObj [("loops", Json.arr out)])]
+  -- the analysis model of W4 (Model/LoopAnalysis.lean) on the per-example pipeline table the harness recorded ("an")
+  match j.getObjVal? "an" with
+  | .ok .null | .error _ => return Json.mkObj [("m", Json.mkObj [("loops", Json.arr out)])]
+  | .ok an =>
+    let a ← (Rio.Analysis.Table.handle an).mapError fun e => s!"analysis table: {e}"
+    return Json.mkObj [("m", Json.mkObj [("loops", Json.arr out), ("an", a)])]
 
 def main : IO Unit := Drv.run handle
